@@ -194,11 +194,11 @@ class StreamBody(Contract):
 # the stream enters / leaves its pre-built ScopeContext around the generator body: "the consumer's state, metrics scope
 # and task group are unaffected ... the stream's scope completes" rests on ScopeContext.__aenter__/__aexit__ restoring the
 # three variables and finishing the metrics scope on *every* path (their C02 obligations, re-used here)
-from .C02 import AsyncScope as _AsyncScope, variant as _variant      # noqa: E402
+from .C02 import AsyncScope as _AsyncScope, TaskGroupExit as _TaskGroupExit, variant as _variant      # noqa: E402
 
 # ... and "the stream's scope completes when the stream is exhausted or closed" (with the scopes it was created in completing
 # after it, not before) is the completion protocol of ScopeMetrics: the C09 contracts of _finish / _complete_if_able
 from .C09 import CompleteIfAble as _CIA, Finish as _Finish      # noqa: E402
 
-CONTRACTS = [StreamFactory(), StreamBody(), _variant(_AsyncScope, "C11", ("C02-",)),
+CONTRACTS = [StreamFactory(), StreamBody(), _variant(_AsyncScope, "C11", ("C02-",)), _variant(_TaskGroupExit, "C11", ("C02-",)),
              _variant(_CIA, "C11", ("",)), _variant(_Finish, "C11", ("",))]
